@@ -44,7 +44,7 @@ macro_rules! to_hvec {
 /// Serialise through every encode entry point; all must agree.
 /// Ok(Ok(bytes)) | Ok(Err(kind)) | Err(description of the disagreement / panic)
 pub fn ser_all(v: &DVal) -> Result<Result<Vec<u8>, &'static str>, String> {
-    let a = match guard(|| postcard::to_allocvec(v)) {
+    let a = match guard(|| postcard::to_allocvec(&crate::dval::Once::new(v))) {
         Err(()) => return Err("panic in to_allocvec".into()),
         Ok(a) => a,
     };
@@ -58,11 +58,11 @@ pub fn ser_all(v: &DVal) -> Result<Result<Vec<u8>, &'static str>, String> {
         }
     };
     let len = a.as_ref().map(|x| x.len()).unwrap_or(16);
-    same("to_stdvec", guard(|| postcard::to_stdvec(v)).map_err(|_| "panic in to_stdvec".to_string())?)?;
+    same("to_stdvec", guard(|| postcard::to_stdvec(&crate::dval::Once::new(v))).map_err(|_| "panic in to_stdvec".to_string())?)?;
     // caller slice: exact fit and roomy
     for extra in [0usize, 3] {
         let mut buf = vec![0xA5u8; len + extra];
-        let r = guard(|| postcard::to_slice(v, &mut buf).map(|s| s.to_vec())).map_err(|_| "panic in to_slice".to_string())?;
+        let r = guard(|| postcard::to_slice(&crate::dval::Once::new(v), &mut buf).map(|s| s.to_vec())).map_err(|_| "panic in to_slice".to_string())?;
         same("to_slice", r)?;
         if a.is_ok() && buf[len..].iter().any(|b| *b != 0xA5) {
             return Err("to_slice wrote beyond the returned length".into());
@@ -71,8 +71,8 @@ pub fn ser_all(v: &DVal) -> Result<Result<Vec<u8>, &'static str>, String> {
     if let Some(r) = guard(|| to_hvec!(v, len, 8, 64, 512, 4096, 32768)).map_err(|_| "panic in to_vec".to_string())? {
         same("to_vec", r)?;
     }
-    same("to_extend", guard(|| postcard::to_extend(v, Vec::new())).map_err(|_| "panic in to_extend".to_string())?)?;
-    same("to_io", guard(|| postcard::to_io(v, Vec::new())).map_err(|_| "panic in to_io".to_string())?)?;
+    same("to_extend", guard(|| postcard::to_extend(&crate::dval::Once::new(v), Vec::new())).map_err(|_| "panic in to_extend".to_string())?)?;
+    same("to_io", guard(|| postcard::to_io(&crate::dval::Once::new(v), Vec::new())).map_err(|_| "panic in to_io".to_string())?)?;
     let sz = guard(|| postcard::experimental::serialized_size(v)).map_err(|_| "panic in serialized_size".to_string())?;
     match (&a, sz) {
         (Ok(b), Ok(n)) if b.len() == n => {}
@@ -146,6 +146,31 @@ pub fn de_all(t: &DTy, bytes: &[u8]) -> Result<DeRes, String> {
         (Ok(a), Ok(b)) if a == b => {}
         (Err(_), Err(_)) => {} // reader errors are all unexpected-end by construction; kinds not compared here
         _ => return Err(format!("entry-mismatch from_io {:?} vs take_from_bytes {:?}", io, take)),
+    }
+    // the embedded-io reader (a twin of the std one): same value, and the borrowed str / bytes of the result must
+    // sit in pairwise disjoint parts of the scratch buffer (the visitor records every borrowed slice it is handed)
+    {
+        let eio = guard(|| {
+            let mut scratch = vec![0u8; bytes.len() + 8];
+            let (sbase, slen) = (scratch.as_ptr() as usize, scratch.len());
+            let rd = crate::ops_io::EioR(crate::ops_io::SchedReader { data: bytes.to_vec(), pos: 0, fault: None, rng: crate::prng::Rng::new(3), whole: false, one: false, transient: false });
+            crate::dval::BORROWS.with(|b| b.borrow_mut().clear());
+            let r = with_ty(t, || postcard::from_eio::<DynVal, _>((rd, &mut scratch[..])).map(|(v, (rd, _))| (v.0, rd.0.data[rd.0.pos..].to_vec())).map_err(|e| err_name(&e)));
+            let mut slots: Vec<(usize, usize)> = crate::dval::BORROWS.with(|b| b.borrow().iter().filter(|(_, l, _)| *l > 0).map(|(p, l, _)| (*p, *l)).collect());
+            slots.sort();
+            let geometry_ok = slots.iter().all(|(p, l)| *p >= sbase && p + l <= sbase + slen) && slots.windows(2).all(|w| w[0].0 + w[0].1 <= w[1].0);
+            (r, geometry_ok)
+        })
+        .map_err(|_| "panic in from_eio".to_string())?;
+        match (&take, &eio.0) {
+            (Ok(a), Ok(b)) if a == b => {
+                if !eio.1 {
+                    return Err("from_eio: borrowed data of one value overlaps in / lies outside the scratch buffer".into());
+                }
+            }
+            (Err(_), Err(_)) => {}
+            _ => return Err(format!("entry-mismatch from_eio {:?} vs take_from_bytes {:?}", eio.0, take)),
+        }
     }
     // a byte reader may deliver its data in pieces: one byte at a time, and random short reads
     for sched in [1u64, 0x5eed] {
